@@ -93,6 +93,13 @@ func solveAll(obls []*Obligation, outDir string, tmo int, mode string) {
 			}
 			return
 		}
+		if o.RawSMT != "" {
+			o.SMT = o.RawSMT
+			o.File = filepath.Join(outDir, fmt.Sprintf("o%04d.smt2", i))
+			os.WriteFile(o.File, []byte(o.SMT), 0o644)
+			o.Res = solveAdaptive(o.File, o.SMT, tmo*3, mode)
+			return
+		}
 		o.SMT = o.c.emit([]string{o.PC}, o.Goal, !o.Cover)
 		if o.Cover || o.Reach {
 			o.SMT = o.c.emit([]string{o.PC}, "true", false)
